@@ -118,6 +118,29 @@ T.update({
  'C20_e': dict(change='DecomposeNAF: final carry stored at out[len(out)-1] instead of out[n-1]', needs='digit buffer longer than n and a carry out of the top bit', strengthened='YES: buffers always had length n; longer buffers added (symbolic and replay)'),
 })
 
+T.update({
+ 'C01_f': dict(change='ScalarMixedMult_Unsafe: `skip = false` removed after the comb addition (same edit as C14_a, proposed for C01)', needs='t = (r+s) mod n below ~2^13: own signature rejected', strengthened='YES: C01 sees the group layer only through its contract (C14 discharges it); rare intermediate values (small t, r, s) solved for the digest were added to the special vectors on the real build'),
+ 'C02_f': dict(change='SignHashed draws the nonce with rand.Read instead of io.ReadFull', needs='reader delivering short reads without error', strengthened='YES: short reads are C19 territory; the C02 special vectors are now also signed through readers delivering 16, 1 and 31 bytes per call'),
+ 'C03_f': dict(change='utils.ConstantTimeCmp loop stops at i > 0 (most significant byte never compared)', needs='public-key coordinate XX FF FF FF.. with XX < FF: valid signatures rejected', strengthened='YES: the decoding obligation found it but no fixed family hit the region; keys are now built at the solver witness and judged on the real build'),
+ 'C04_f': dict(change='sm3 Write returns the length of the unprocessed tail', needs='Write that completes a block or carries >= 64 bytes', strengthened='no'),
+ 'C05_f': dict(change='cryptoBlockAsm stores its result with the aligned VMOVDQA32', needs='dst not 16-byte aligned: fault', strengthened='YES: the interpreter flagged the aligned form but the replay used aligned buffers; blocks at every buffer offset added, and a crash of the replay binary now counts as a failed replay'),
+ 'C06_f': dict(change='calculateJ0Branch2 entry guard JL became JLE', needs='nonce of exactly 16 bytes', strengthened='no'),
+ 'C07_f': dict(change='Open skips openAsm (and the tag check) when the plaintext is empty', needs='tag-only message: any tag accepted', strengthened='YES: glue failures carried a fixed unrelated witness; every glue finding now carries its own lengths'),
+ 'C08_f': dict(change='SM2Point.Add returns early when p2 is the point at infinity', needs='zero window of the secret scalar', strengthened='no'),
+ 'C09_f': dict(change='constantTimeCompare folds the accumulator with a data-dependent loop (ORB/SHRQ/JNE)', needs='rejected tag: 1..8 iterations', strengthened='YES (engine): flags after shifts were not modelled and the constant branch oracle never left the loop; both fixed'),
+ 'C10_f': dict(change='sm3 Sum appends to in[:0]', needs='non-empty prefix', strengthened='no'),
+ 'C11_f': dict(change='makeCounterNew loads 16 bytes from the 12-byte nonce', needs='nonce ending within 4 bytes of unmapped memory', strengthened='YES: found from the listing, but the replay only guarded the ciphertext; nonce, additional data and text are now all placed at page ends'),
+ 'C12_f': dict(change='TestPrivateKey accepts everything except n-1 above the range', needs='key or candidate >= n', strengthened='no'),
+ 'C13_f': dict(change='Sign: shadowed err, bare return after a ZA failure', needs='id of 8192 bytes or more: (nil, nil, nil)', strengthened='no'),
+ 'C14_f': dict(change='ScalarBaseMult normalises k >= n through big.Int.Bytes()', needs='scalar in [n, 2^256): error instead of [k]G', strengthened='no'),
+ 'C15_f': dict(change='Add: fast path to Double when x and z are equal (y not compared)', needs='P + (-P) in the same representative', strengthened='no (detected, but only after 36 min: time budgets added to C15 so that the replay is reached sooner)'),
+ 'C16_f': dict(change='scalar SetBytes compares against p-1 instead of n-1', needs='32-byte value in [n, p-1]', strengthened='no'),
+ 'C17_f': dict(change='VerifyZa reuses one package-level sm3 digest', needs='concurrent verifications', strengthened='YES: the real-code audit covered only the digest-level entry points; Sign/Verify/VerifyZa/SignZa/ZA with the real SM3 added, race replay extended'),
+ 'C18_f': dict(change='arm64 CK[25] data word', needs='arm64 only', strengthened='no'),
+ 'C19_f': dict(change='GenerateKey retry loop bounded to 8 attempts, falls through', needs='8 or more rejected candidates, then the source ends', strengthened='YES: beyond the symbolic bound on candidates; concrete runs of 0..40 rejected candidates followed by EOF / a partial draw / a good draw added'),
+ 'C20_f': dict(change='ConstantTimeCmp consumes 32-bit words', needs='l not a multiple of 4', strengthened='no'),
+})
+
 for name, t in sorted(T.items()):
     d = os.path.join(S, name)
     if not os.path.isdir(d):
@@ -127,7 +150,7 @@ for name, t in sorted(T.items()):
     detected = any(l.startswith('VIOLATION') for l in res)
     key = next((l.strip() for l in res if l.strip().startswith('key=')), '')
     meta = dict(
-        seed=name, property=prop, origin='fresh sub-agent given only the property text and a scratch worktree of /repo' + (' (asked for a change in the arm64 implementation; demonstration by a Go port of the changed logic, since arm64 code cannot run on this host)' if name.endswith('_d') else ''),
+        seed=name, property=prop, origin='fresh sub-agent given only the property text and a scratch worktree of /repo' + (' (asked for a change in the arm64 implementation; demonstration by a Go port of the changed logic, since arm64 code cannot run on this host)' if name.endswith('_d') else '') + (' (fifth round: one sub-agent handled four properties in turn, each in its own worktree)' if name.endswith('_f') else ''),
         change=t['change'], needs_to_manifest=t['needs'],
         compiles=True, existing_suite_passes=True,
         confirmed_by_me='applied patch.diff in a scratch worktree: go build ./... and go test -vet=off -count=1 ./... pass; demo_test.go fails with the change and passes without it (C08/C09/C11: structural demonstration, see meta.txt)',
